@@ -227,6 +227,25 @@ func revBody(s *vsched.Sched, p Param) {
 		w.Net.ArmFrame(0, vnet.FrameCut{Kind: map[int]vnet.FaultKind{4: vnet.FIN, 5: vnet.RST}[loss], Dir: vnet.C2S, Frame: 1, Where: vnet.MidPayload})
 	}
 	s.Teardown = w.Teardown
+	// The second forward call is released only when the redial has succeeded AND the system has
+	// gone quiescent, i.e. the client has finished swapping the new connection in: a call issued
+	// inside the hand-over may legitimately fail fast (that window is C03's and C05's subject).
+	fwd2Allowed := false
+	s.OnQuiesce = func() bool {
+		if reconnect && !fwd2Allowed && has("cut") {
+			n := 0
+			for _, d := range w.Net.Dials() {
+				if d.OK {
+					n++
+				}
+			}
+			if n >= m+1 {
+				fwd2Allowed = true
+				return true
+			}
+		}
+		return false
+	}
 	s.EnvEnabled = func(name string) bool {
 		if strings.HasPrefix(name, "whoami-") {
 			if twometh {
@@ -237,13 +256,7 @@ func revBody(s *vsched.Sched, p Param) {
 			return has("lost") // the reverse handler of the lost client answers only after the loss
 		}
 		if name == "fwd2-go" {
-			n := 0
-			for _, d := range w.Net.Dials() {
-				if d.OK {
-					n++
-				}
-			}
-			return has("cut") && n >= m+1
+			return fwd2Allowed
 		}
 		return true
 	}
